@@ -736,17 +736,18 @@ func (x *fnv) havocLoop(s *State, w *writeSet, lp *loopCtx, tag string) []string
 		objs = append(objs, o)
 	}
 	sortObjs(objs)
+	// allocation inside the loop: bump the allocation frontier first, so that the havocked
+	// variables may refer to objects allocated by earlier iterations
+	top := c.Fresh("top", SInt)
+	s.Assume(c.Ge(top, s.allocTop))
+	headTop := s.allocTop
+	s.allocTop = top
 	for _, o := range objs {
 		if _, ok := s.vars[o]; !ok {
 			continue // declared inside the loop
 		}
 		s.vars[o] = x.h.freshValue(s, o.Type(), "loop_"+o.Name())
 	}
-	// allocation inside the loop
-	top := c.Fresh("top", SInt)
-	s.Assume(c.Ge(top, s.allocTop))
-	headTop := s.allocTop
-	s.allocTop = top
 	var regions []string
 	if w.all {
 		panic(unsupported("loop with a write target the generator cannot name"))
@@ -903,6 +904,8 @@ func (x *fnv) execFor(s *State, st *ast.ForStmt, label string) (out flows) {
 			}
 		}
 	}
+	x.activeLoops[ord] = lp
+	defer delete(x.activeLoops, ord)
 	x.checkInvariants(s, lp, "init", st.Pos())
 	w := x.loopWrites(st.Body, st.Cond, st.Post)
 	head := s.Clone()
@@ -962,6 +965,8 @@ func (x *fnv) execRange(s *State, st *ast.RangeStmt, label string) (out flows) {
 	if x.fc != nil {
 		lp.lc = x.fc.Loops[ord]
 	}
+	x.activeLoops[ord] = lp
+	defer delete(x.activeLoops, ord)
 	xt := x.typeOf(st.X)
 	coll := x.eval(s, st.X)
 	it := types.Typ[types.Int]
